@@ -47,14 +47,17 @@ ENGINE_NOTES = {
     "sched": "Trusted base: independent raw-store parser for snapshots, reference model for the sequential result, the sequential twin is real code. should_yield is replaced so that every loop iteration yields (a superset of the shipped yield points). Schedules are sampled by seed; not exhaustive.",
     "crash": "Trusted base: the disk model is the one the property states (ordered, write-through, atomic in-place block rewrites); log-prefix reconstruction is cross-checked against real in-line crashes. All cuts of each sampled history are enumerated; histories are sampled.",
 }
-TECH = {
-    "C09": "deterministic simulation: seeded histories + pager task interleaved with seeded writers, reference-model oracle",
-    "C11": "deterministic simulation with fault injection: restart (close/reopen, clear) at every position of each seeded history, differential against a never-closed twin",
-    "C14": "deterministic simulation: write-log monitoring on a simulated disk across every read-only call",
-    "C15": "deterministic simulation: differential twin run across storage back-ends, plus real-file mmap reads",
-    "C16": "deterministic simulation: seeded cooperative scheduler over the library's generator requests, per-step snapshot oracles",
-    "C18": "deterministic simulation with fault injection: crash at every cut of the simulated disk's write log (block and byte granularity), reopen and sweep",
-}
+_SEQ = "deterministic simulation with fault injection: seeded request histories on a simulated disk (restarts, clear, failing input streams, abandoned iterator requests, refused system calls, disk full, crash-recovered and failure-recovered states with re-submission), reference-model oracle and model-free consistency sweeps"
+TECH = {p: _SEQ for p in ("C01", "C02", "C03", "C04", "C05", "C06", "C07", "C08", "C12", "C13", "C19", "C20")}
+TECH.update({
+    "C09": "deterministic simulation: seeded histories + pager calls interleaved with seeded writer requests, two paginations served in turns, reference-model oracle",
+    "C10": "deterministic simulation with fault injection: seeded histories, token chains against the unpaginated answer, a pager resumed after other requests judged call by call, crash-recovered states",
+    "C11": "deterministic simulation with fault injection: restart (close/reopen, clear) at every position of each seeded history and between two queries, differential against a never-closed twin",
+    "C14": "deterministic simulation with fault injection: write-log monitoring on a simulated disk across every read-only call, on ordinary, crash-cut, out-of-step and refused-write states",
+    "C15": "deterministic simulation with fault injection: differential twin run across storage back-ends (refused first construction, file-size limits, overwrite on a used folder), plus real-file mmap reads",
+    "C16": "deterministic simulation: seeded cooperative scheduler over the library's generator requests and one-step blocking requests, per-step snapshot oracles",
+    "C18": "deterministic simulation with fault injection: crash at every cut of the simulated disk's write log (block and byte granularity), disk full and refused system calls, reopen and sweep",
+})
 ENGINES += [
     {"name": "pager", "path": "sim/pagination.py", "serves_properties": ["C09"], "kind_free_text": "sequential engine plus a pager task whose calls are interleaved with seeded writer requests"},
     {"name": "restart", "path": "sim/twins.py", "serves_properties": ["C11"], "kind_free_text": "restart-position enumeration against a never-closed twin; clear vs fresh index"},
